@@ -106,6 +106,8 @@ def check_itinerary(d, n, r):
             if steps[i]["action"] != "walking" or steps[i].get("kind") != 1:
                 return errs + ["shape: transfer walk expected at step %d" % i]
             walk_t = steps[i]["travelTime"]; cur_t = u["arrivalTime"] + walk_t; i += 1
+            if not i < len(steps) - 1:
+                return errs + ["shape: a transfer walk must be followed by a boarding, not by the egress walk"]
         else:
             cur_t = u["arrivalTime"]
     eg = steps[-1]
